@@ -1,7 +1,12 @@
 package driver
 
 import (
+	"encoding/json"
 	"fmt"
+	"math"
+	"os"
+	"os/exec"
+	"strconv"
 
 	"github.com/flowmatters/openwater-core/data"
 	"github.com/flowmatters/openwater-core/sim"
@@ -192,6 +197,29 @@ func enginePure(rc *RunCtx) *Outcome {
 			}
 		}
 	}
+	// fresh-process oracle (sampled): the first execution of every argument set is repeated in a
+	// brand-new process that runs nothing else; the results must be bit-identical - nothing that
+	// earlier executions left behind in package-level state may influence them
+	if only := os.Getenv("VERIF_PRISTINE_SET"); only != "" {
+		k, _ := strconv.Atoi(only)
+		if k < len(sets) {
+			s := simrt.Run(rc.T, simrt.Config{}, simrt.ReplayTape(nil), func() {
+				_, _, out, fin, _ := execArgs(sets[k], nil, 0, 0, 0, false, false)
+				o.Detail = map[string]interface{}{"pristine_digest": fmt.Sprintf("%x", digestFloats(out, fin))}
+			})
+			if s.Outcome != "" {
+				o.Detail = map[string]interface{}{"pristine_digest": "crash:" + s.Outcome}
+			}
+		}
+		return o
+	}
+	freshSample := w.Choose(25) == 24
+	for _, a := range sets {
+		if a.c.NearEqual {
+			freshSample = true // twins with nearly equal parameters: always compare with fresh processes
+		}
+	}
+	workPrefix := append([]int(nil), w.Rec...)
 	nOps := 8 + w.Choose(25)
 	if rc.Tier == "thorough" {
 		nOps = 10 + w.Choose(31)
@@ -252,6 +280,23 @@ func enginePure(rc *RunCtx) *Outcome {
 			_, b, out, fin, T := execArgs(a, nil, 0, 0, 0, false, false)
 			check(a, ai, out, fin, 0, 0, T, "first execution")
 			a.first = b
+		}
+		if freshSample && o.Class == "" {
+			for ai, a := range sets {
+				if !a.have {
+					continue
+				}
+				got := fmt.Sprintf("%x", digestFloats(a.memoOut, a.memoFin))
+				want, err := pristineInFreshProcess(rc, workPrefix, ai)
+				if err != nil {
+					panic("harness: fresh-process oracle: " + err.Error())
+				}
+				o.probe("first_execution_repeated_in_a_fresh_process")
+				if want != got {
+					o.fail("depends-on-process-history", a.c.Model+"/fresh-process", "%s (argument set %d of %v): its first execution in this history differs from the same execution in a fresh process that runs nothing else (digests %s vs %s): results depend on what ran earlier in the process", a.c.Model, ai, modelsUsed, got, want)
+					return
+				}
+			}
 		}
 		for op := 0; op < nOps && o.Class == ""; op++ {
 			ai := w.Choose(len(sets))
@@ -349,4 +394,59 @@ func enginePure(rc *RunCtx) *Outcome {
 		o.fail("no-termination", s.Outcome, "%s; blocked: %v", s.Outcome, s.Blocked)
 	}
 	return o
+}
+
+func digestFloats(vs ...[]float64) uint64 {
+	h := uint64(1469598103934665603)
+	for _, v := range vs {
+		h = fnv(h, uint64(len(v)))
+		for _, x := range v {
+			h = fnv(h, math.Float64bits(x))
+		}
+	}
+	return h
+}
+
+// pristineInFreshProcess re-executes this binary as a new process that regenerates the same
+// argument sets from the workload-tape prefix and runs only the first execution of set k.
+func pristineInFreshProcess(rc *RunCtx, workPrefix []int, k int) (string, error) {
+	dir, err := os.MkdirTemp("", "owpristine.")
+	if err != nil {
+		return "", err
+	}
+	defer os.RemoveAll(dir)
+	rf := ReplayFile{Property: rc.Prop, Engine: rc.Engine, RunSeed: rc.Seed, Index: rc.Index, Tier: rc.Tier, Mode: "tapes", Work: workPrefix}
+	b, _ := json.Marshal(rf)
+	if err := os.WriteFile(dir+"/replay.json", b, 0644); err != nil {
+		return "", err
+	}
+	cmd := exec.Command(os.Args[0], "-test.run", "^TestWorker$", "-test.count=1", "-test.cpu", "1")
+	cmd.Env = append(os.Environ(), "VERIF_REPLAY="+dir+"/replay.json", "VERIF_OUT="+dir+"/out.jsonl", "VERIF_PRISTINE_SET="+strconv.Itoa(k))
+	if out, err := cmd.CombinedOutput(); err != nil {
+		return "", fmt.Errorf("child failed: %v: %.300s", err, out)
+	}
+	data, err := os.ReadFile(dir + "/out.jsonl")
+	if err != nil {
+		return "", err
+	}
+	var rec struct {
+		Detail map[string]interface{} `json:"detail"`
+	}
+	if err := json.Unmarshal(data[:indexByte(data, '\n')], &rec); err != nil {
+		return "", err
+	}
+	d, _ := rec.Detail["pristine_digest"].(string)
+	if d == "" {
+		return "", fmt.Errorf("no digest in child output: %.200s", data)
+	}
+	return d, nil
+}
+
+func indexByte(b []byte, c byte) int {
+	for i, x := range b {
+		if x == c {
+			return i
+		}
+	}
+	return len(b)
 }
